@@ -153,6 +153,9 @@ class Universe:
             self.egos.append(ego)
             objs = [mk(o, f["time"], ego, 1.0) for o in f["objects"]]
             self.frames.append(FrameGroundTruth(f["time"], str(f["name"]), objs, transforms=[ego]))
+            from harness import builders as _B  # registry with a history (replaced ego pose), see builders.give_history
+
+            _B.maybe_history(self.frames[-1], ego, ("c13", f["time"], len(objs), ex))
         self.ests = []
         for i, el in enumerate(case["ests"]):
             ego = self.egos[min(i, len(self.egos) - 1)]
